@@ -7,6 +7,9 @@ import time
 
 VERIF = os.path.dirname(os.path.dirname(os.path.abspath(__file__)))
 KNOWN = os.path.join(VERIF, "known_findings.json")
+# the mutation self-test runs the checks on scratch copies; their evidence must not
+# overwrite the evidence of the run against /repo
+EVDIR = os.environ.get("ZSA_EVIDENCE_DIR") or os.path.join(VERIF, "evidence")
 
 
 class Run:
@@ -78,7 +81,7 @@ class Run:
                 v["known"] = True
             else:
                 unlisted.append(v)
-        vdir = os.path.join(VERIF, "evidence", "violations")
+        vdir = os.path.join(EVDIR, "violations")
         os.makedirs(vdir, exist_ok=True)
         # remove stale replay files of this property
         for n in os.listdir(vdir):
@@ -149,8 +152,8 @@ class Run:
             "violations": n_unlisted,
         }
         ev["coverage"].update(self.extra)
-        os.makedirs(os.path.join(VERIF, "evidence"), exist_ok=True)
-        with open(os.path.join(VERIF, "evidence", self.pid + ".json"), "w") as fh:
+        os.makedirs(EVDIR, exist_ok=True)
+        with open(os.path.join(EVDIR, self.pid + ".json"), "w") as fh:
             json.dump(ev, fh, indent=1)
 
 
